@@ -366,7 +366,7 @@ def match_known(prop: str, key: dict, findings=None) -> dict | None:
 # replay files and evidence
 # ---------------------------------------------------------------------------
 def write_replay(prop: str, seed: int, unit_id: str, payload: dict) -> str:
-    d = os.path.join(VERIF, "replays")
+    d = os.environ.get("VERIF_REPLAY_DIR") or os.path.join(VERIF, "replays")
     os.makedirs(d, exist_ok=True)
     safe = "".join(c if c.isalnum() or c in "-_." else "_" for c in unit_id)
     path = os.path.join(d, f"{prop}-{seed}-{safe[:80]}.json")
@@ -381,7 +381,8 @@ def write_replay(prop: str, seed: int, unit_id: str, payload: dict) -> str:
 def write_evidence(prop: str, tier: str, seed: int, coverage: dict,
                    wall_s: float, violations: int, assumptions: list[str],
                    level: str = "exploration"):
-    d = os.path.join(VERIF, "evidence")
+    d = os.environ.get("VERIF_EVIDENCE_DIR") or os.path.join(VERIF,
+                                                             "evidence")
     os.makedirs(d, exist_ok=True)
     ev = {
         "property_id": prop,
